@@ -11,7 +11,7 @@
    op_nojar excludes only SetCookieJar without a factory (the documented shared jar);
    op_api excludes appending to the wrapper lists behind WrapRoundTrip's back (no API does). *)
 From Coq Require Import List Arith Bool.
-From ReqV Require Import Model.Settings Model.ReExec Model.LiveSel Model.Handshake Model.PoolKey Model.DumpCtx Gen.CloneTable Proofs.SettingsHeap Proofs.SettingsValue Proofs.SettingsSim Proofs.ReExecProofs Proofs.PoolKeyProofs Proofs.C19Top.
+From ReqV Require Import Model.Settings Model.ReExec Model.LiveSel Model.Handshake Model.PoolKey Model.DumpCtx Model.ConnectHdr Gen.CloneTable Proofs.SettingsHeap Proofs.SettingsValue Proofs.SettingsSim Proofs.ReExecProofs Proofs.PoolKeyProofs Proofs.C19Top.
 Import ListNotations.
 
 (* the Clone code, as read from the source by gosync, deep-copies every reference the model tracks,
@@ -230,6 +230,26 @@ Print Assumptions C19_own_request_dump_governs.
 Theorem C19_early_return_dump_refuted : deffective (denable {| d_always_pushes := false |} [7] 3) = 7.
 Proof. exact early_return_dump_refuted. Qed.
 Print Assumptions C19_early_return_dump_refuted.
+
+(* ---------- ProxyConnectHeader and the CONNECT credentials (Model/ConnectHdr.v) ---------- *)
+Theorem C19_connect_header_as_modelled : gen_ch = good_ch.
+Proof. reflexivity. Qed.
+Print Assumptions C19_connect_header_as_modelled.
+
+(* for EVERY history of SetProxyConnectHeader calls and tunnels under any proxy credentials: the client-level
+   option never keeps credentials, and the next CONNECT carries exactly those of the proxy URL in force *)
+Theorem C19_connect_credentials_govern : forall h auth,
+  let o := fold_left (ch_step gen_ch) h chopt0 in
+  ch_stuck o = (0, 0) /\ snd (ch_dial gen_ch o auth) = (if no_auth auth then (0, 0) else auth).
+Proof. exact connect_credentials_govern. Qed.
+Print Assumptions C19_connect_credentials_govern.
+
+Theorem C19_connect_write_through_refuted :
+  let t := {| ch_clone_before_auth := false |} in
+  let o := fold_left (ch_step t) [ChSetHeader 1; ChDial (1, 1)] chopt0 in
+  snd (ch_dial t o (0, 0)) = (1, 1).
+Proof. exact connect_write_through_refuted. Qed.
+Print Assumptions C19_connect_write_through_refuted.
 
 Example C19_nonvacuous :
   Forall op_api witness /\ Forall op_nojar witness /\
